@@ -546,6 +546,15 @@ def check_segment(seg, meta, st, fails, line, xc=None):
     k_adv = 0
     tainted = False          # known finding: driver loop left with max_nsteps spent (arc > step)
     n_accept = 0             # substeps accepted by the propagator (no boundary along the chord)
+    # regime of the known finding `helix-gyroradius-below-minimum-step`: the gyroradius
+    # p / (c |q| |B|) of THIS propagation is below ITS minimum_step (uniform fields only)
+    bn_ = norm(meta["B"]) if meta["fld"] in ("u", "z") else 0.0
+    p_tok = next((fl(a[0]) for t, a in ev if t == "p"), None)
+    rad_ = (abs(p_tok / (C_R * meta["q"] * bn_ / TESLA)) if (bn_ > 0 and p_tok and meta["q"])
+            else float("inf"))
+    below_min = rad_ < min_sub
+    if below_min:
+        st.inc("propagations_gyroradius_below_minimum_step")
     for t, a in ev:
         if t == "g0":
             g0 = [fl(x) for x in a]
@@ -620,7 +629,16 @@ def check_segment(seg, meta, st, fails, line, xc=None):
                     st.inc("chord_longer_than_substep")
                     # the embedded error estimate is not a bound (it underestimates on the
                     # interpolated RZ map and for steps of order one radian): kappa = 1 + 25 eps
-                    if (chord_len > sub * (1 + 25 * eps_rel) and meta["stp"] == "zh"
+                    if chord_len > sub * (1 + 25 * eps_rel) and below_min:
+                        st.inc("below_minimum_step_chord_deviation")
+                        fails.append(("helix-gyroradius-below-minimum-step",
+                                      "gyroradius below minimum_step (validated options): integration "
+                                      "steps are floored at minimum_step without error control; here "
+                                      "the chord of a driver substep is longer than its curved length",
+                                      {"deviation": "chord-longer-than-substep", "substep": sub,
+                                       "chord": chord_len, "radius": rad_, "minimum_step": min_sub,
+                                       "p_in": norm(cur_adv[4:7]), "p_out": norm(r[4:7])}))
+                    elif (chord_len > sub * (1 + 25 * eps_rel) and meta["stp"] == "zh"
                             and zh_off_axis(cur_adv[1:4], cur_adv[4:7], meta) > 1e-6):
                         # ZHelixStepper rotates about the origin: once a boundary landing (within
                         # delta_intersection) has moved the track off its helix the lever arm is
@@ -635,7 +653,9 @@ def check_segment(seg, meta, st, fails, line, xc=None):
                                       "a substep exceeds the curved substep length beyond the "
                                       "integration tolerance", {"substep": sub, "chord": chord_len}))
             pin, pout = norm(cur_adv[4:7]), norm(r[4:7])
-            if pin > 0 and not tainted:
+            if pin > 0 and not tainted and below_min:
+                st.max("max_rel_momentum_change_per_substep_below_minimum_step", abs(pout / pin - 1.0))
+            elif pin > 0 and not tainted:
                 dev = abs(pout / pin - 1.0)
                 st.max("max_rel_momentum_change_per_substep", dev)
                 if meta["stp"] == "zh":
@@ -758,8 +778,9 @@ def check_segment(seg, meta, st, fails, line, xc=None):
                           "gyroradius below minimum_step (validated options): integration steps are "
                           "floored at minimum_step without error control and the end point leaves "
                           "the analytic helix by more than the configured tolerances",
-                          {"residual": resid, "tol": tol, "distance": distance, "radius": rad,
-                           "minimum_step": min_sub, "end": fin[0][:3], "helix": pt}))
+                          {"deviation": "helix-residual", "residual": resid, "tol": tol,
+                           "distance": distance, "radius": rad, "minimum_step": min_sub,
+                           "end": fin[0][:3], "helix": pt}))
         elif resid > tol and meta["stp"] == "zh" and (
                 any(t == "->mtb" for t, _ in ev) or zh_off_axis(g0[:3], g0[3:6], meta) > 1e-6):
             st.inc("zhelix_off_axis_after_boundary_snap")
